@@ -178,6 +178,8 @@ func (s *subscriberImpl[T]) NextWithContext(ctx context.Context, v T) {
 		return
 	}
 
+	verifPoint("subscriber.next.enter")
+
 	if s.backpressure == BackpressureDrop {
 		if !s.mu.TryLock() {
 			OnDroppedNotification(ctx, NewNotificationNext(v))
@@ -194,6 +196,7 @@ func (s *subscriberImpl[T]) NextWithContext(ctx context.Context, v T) {
 	}
 
 	s.mu.Unlock()
+	verifPoint("subscriber.next.exit")
 }
 
 // Implements Observer.
@@ -214,6 +217,7 @@ func (s *subscriberImpl[T]) ErrorWithContext(ctx context.Context, err error) {
 	}
 
 	s.mu.Unlock()
+	verifPoint("subscriber.terminal.unlocked")
 
 	s.unsubscribe()
 }
@@ -236,6 +240,7 @@ func (s *subscriberImpl[T]) CompleteWithContext(ctx context.Context) {
 	}
 
 	s.mu.Unlock()
+	verifPoint("subscriber.terminal.unlocked")
 
 	s.unsubscribe()
 }
